@@ -33,15 +33,45 @@ VT = "alpha::value_type::ValueType::"
 INTS = ["Int8", "Int16", "Int32", "Int64", "Int128", "Uint8", "Uint16", "Uint32", "Uint64", "Uint128", "Usize"]
 
 
-def class_set(F, fn):
+def class_set(F, fn, _depth=0):
+    """The set of ValueType variants for which the class predicate `fn` (a pure `fn(&self) -> bool`) is true, whatever its
+    form: a match over self with boolean arms (literals, or-patterns, matches!), or a boolean combination of other class
+    predicates (`self.is_integral() && !self.is_bitfield()`); folded per variant.  Composite variants are decided by the
+    pattern alone (their fields do not matter to these predicates)."""
+    from rules.core import CannotAnalyse
+    if _depth > 6:
+        raise CannotAnalyse("class_set: predicates of ValueType call each other too deeply (%s)" % fn)
     b = F.body(VT + fn)
-    m = hirq.find_match(b, min_arms=2)
-    out = set()
-    for a in m["arms"]:
-        if [x["v"] for x in hirq.lits(a["body"], "bool")] == [True]:
-            for alt in hirq.pat_alts(a["pat"]):
-                out.add(hirq.pat_key(alt).split("::")[-1])
-    return out
+    variants = [v["name"] for v in F.lib.adts["alpha::value_type::ValueType"]["variants"]]
+
+    def ev(n, v):
+        n = hirq.unwrap_trivial(n)
+        k = n.get("k")
+        if k == "Lit" and isinstance(n.get("v"), bool):
+            return n["v"]
+        if k == "Block" and not n.get("stmts") and n.get("e") is not None:
+            return ev(n["e"], v)
+        if k == "Unary" and n.get("op") == "Not":
+            return not ev(n["e"], v)
+        if k == "Binary" and n.get("op") in ("And", "Or"):
+            l = ev(n["lhs"], v)
+            return (l and ev(n["rhs"], v)) if n["op"] == "And" else (l or ev(n["rhs"], v))
+        if k == "MethodCall" and hirq.local_name_of(hirq.unwrap_trivial(n["recv"])) == "self" and (hirq.callee(n) or "").startswith(VT) and not n.get("a"):
+            return v in class_set(F, (hirq.callee(n) or "").split("::")[-1], _depth + 1)
+        if k == "Match":
+            sc = hirq.unwrap_trivial(n["scrut"])
+            while sc.get("k") in ("AddrOf",) or (sc.get("k") == "Unary" and sc.get("op") == "Deref"):
+                sc = hirq.unwrap_trivial(sc["e"])
+            if hirq.local_name_of(sc) == "self":
+                for a in n["arms"]:
+                    for alt in hirq.pat_alts(a["pat"]):
+                        if hirq.is_catchall(alt) or hirq.pat_key(alt).split("::")[-1] == v:
+                            if "guard" in a:
+                                raise CannotAnalyse("class_set: guarded arm in %s" % fn)
+                            return ev(a["body"], v)
+                raise CannotAnalyse("class_set: no arm of %s covers %s" % (fn, v))
+        raise CannotAnalyse("class_set: %s is not a boolean combination of variant tests (%s)" % (fn, k))
+    return set(v for v in variants if ev(b["hir"], v))
 
 
 def const_table(F, name):
